@@ -49,9 +49,9 @@ class Prog:
         self.graphs.append([])
         return len(self.graphs) - 1
 
-    def add(self, g, kind=0, us=0, sos=0, ho=0, ins=(), vmode=0, scripts=None, nest=None):
+    def add(self, g, kind=0, us=0, sos=0, ho=0, ins=(), vmode=0, scripts=None, nest=None, pauses=None):
         self.graphs[g].append(dict(kind=kind, us=us, sos=sos, ho=ho, ins=list(ins), vmode=vmode,
-                                   scripts=dict(scripts or {}), nest=nest))
+                                   scripts=dict(scripts or {}), nest=nest, pauses=dict(pauses or {})))
         return len(self.graphs[g]) - 1
 
     def lines(self):
@@ -73,6 +73,8 @@ class Prog:
                 for k in sorted(n["scripts"]):
                     for op in n["scripts"][k]:
                         out.append([3, g, i, k] + list(op))
+                for k in sorted(n["pauses"]):
+                    out.append([9, g, i, k, n["pauses"][k]])
         out += self.hints
         return out
 
@@ -187,7 +189,8 @@ def place_body(P, g, body, ext):
                 bound.append((ref[1], base + j, s))
             else:
                 ins.append((ext[ref[1]][0], ext[ref[1]][1], act, req))
-        P.add(g, kind=b.get("kind", 0), us=b["us"], sos=b["sos"], ho=b["ho"], ins=ins, vmode=b["vmode"], scripts=b["scripts"])
+        P.add(g, kind=b.get("kind", 0), us=b["us"], sos=b["sos"], ho=b["ho"], ins=ins, vmode=b["vmode"], scripts=b["scripts"],
+              pauses=b.get("pauses"))
     return base, bound
 
 
@@ -344,7 +347,44 @@ def gen_c15(rng, tier):
     return P.lines()
 
 
+def gen_c01(rng, tier):
+    """Cycles that pause and resume: kind-5 nodes whose evaluate returns false (what mesh_subscribe does) inside
+    child graphs whose owner re-enters the paused cycle until it completes (kind 4, what mesh_ does)."""
+    start = rng.randint(1, 3)
+    end = start + rng.randint(6, 12 if tier == "quick" else 20)
+    P = Prog(start, end)
+    srcs = [gen_source(rng, P, end - start) for _ in range(rng.randint(1, 2))]
+    for _ in range(rng.randint(1, 2)):
+        nports = rng.randint(1, 2)
+        ports = [(rng.choice(srcs), 0) for _ in range(nports)]
+        body = gen_body(rng, nports, tier, style=rng.choice(["timers", "random", "chain"]))
+        while len(body) < 2 or (len(body) < 4 and rng.random() < 0.6):
+            j = len(body)
+            prev = [x for x in range(j) if body[x]["ho"]]
+            ref = ("n", rng.choice(prev)) if prev else ("x", 0)
+            body.append(dict(us=0, sos=0, ho=1, vmode=0, ins=[(ref, 1, 1)], scripts={-2: [[6, rng.randint(0, 5), 0]]}, kind=0))
+        # the pausing node(s): at EVERY index, also 0 and the terminal
+        for pi in rng.sample(range(len(body)), 1 if rng.random() < 0.7 else min(2, len(body))):
+            b = body[pi]
+            b["kind"], b["us"], b["sos"] = 5, 0, 0
+            b["scripts"] = {k: [op for op in v if op[0] in (0, 6, 7)] or [[0, 0, 0]] for k, v in b["scripts"].items() if k != -1}
+            b["scripts"].setdefault(-2, [[6, 1, 0]] if b["ho"] else [[0, 0, 0]])
+            if not b["ins"]:
+                b["ins"] = [(("x", 0), 1, 1)]
+            b["pauses"] = {k: rng.choice([0, 1, 1, 2, 3]) for k in range(0, 8) if rng.random() < 0.8}
+        depth = rng.choice([1, 1, 2, 3])
+        kinds = [4] + [1] * (depth - 1)
+        rng.shuffle(kinds)
+        n, _ = nest_body(P, 0, body, ports, depth, kind=kinds[0], inner_kinds=kinds[1:])
+        recorder(P, 0, n, 0)
+    for sidx in srcs:
+        recorder(P, 0, sidx)
+    return P.lines()
+
+
 def gen(rng, tier, prop):
+    if prop == "C01":
+        return gen_c01(rng, tier)
     if prop == "C15":
         return gen_c15(rng, tier)
     if prop == "C09":
@@ -360,6 +400,7 @@ def parse_case(case):
     nest = {}
     groups = {}
     clean = set()
+    pauses = {}
     for l in case:
         if l[0] == 1:
             start, end = l[1], l[2]
@@ -375,13 +416,15 @@ def parse_case(case):
             scripts.setdefault((l[1], l[2], l[3]), []).append((l[4], l[5], l[6]))
         elif l[0] == 7:
             groups.setdefault(l[1], []).append((l[2], l[3]))
+        elif l[0] == 9:
+            pauses[(l[1], l[2], l[3])] = l[4]
         elif l[0] == 8:
             clean.add((l[1], l[2]))
     parent = {0: None}
     for (g, i), (ch, _o, _b) in nest.items():
         parent[ch] = (g, i)
     return dict(start=start, end=end, paired=paired, nodes=nodes, scripts=scripts, nest=nest, groups=groups,
-                clean=clean, parent=parent)
+                clean=clean, parent=parent, pauses=pauses)
 
 
 def script_for(scripts, g, i, k):
@@ -408,7 +451,7 @@ def split_runs(out):
 
 def resolve_out(pc, g, i, port):
     n = pc["nodes"].get((g, i))
-    while n is not None and n["kind"] in (1, 2) and port == 0 and (g, i) in pc["nest"] and pc["nest"][(g, i)][1] >= 0:
+    while n is not None and n["kind"] in (1, 2, 4) and port == 0 and (g, i) in pc["nest"] and pc["nest"][(g, i)][1] >= 0:
         ch, outn, _ = pc["nest"][(g, i)]
         g, i = ch, outn
         n = pc["nodes"].get((g, i))
@@ -437,7 +480,7 @@ def src_is_forwarding(pc, g, i, s):
     n = pc["nodes"].get((g, i))
     src = n["ins"][s][0]
     if src >= 0:
-        return pc["nodes"][(g, src)]["kind"] in (1, 2)
+        return pc["nodes"][(g, src)]["kind"] in (1, 2, 4)
     par = pc["parent"].get(g)
     if par is None:
         return False
@@ -509,7 +552,7 @@ def stats(case, out):
     for t, ns in ev.items():
         for n in ns:
             nd = pc["nodes"][(0, n)]
-            if nd["kind"] in (1, 2) and not any(s[0] >= 0 and (0, s[0], t) in emitted_at for s in nd["ins"]):
+            if nd["kind"] in (1, 2, 4) and not any(s[0] >= 0 and (0, s[0], t) in emitted_at for s in nd["ins"]):
                 selfdriven += 1
     consec = sum(1 for a, b in zip(root_cycles, root_cycles[1:]) if b == a + 1)
     th = throws_in(pc, r0)
@@ -517,7 +560,9 @@ def stats(case, out):
             "child_cycles": child_cycles, "selfdriven_child_cycles": selfdriven, "consecutive_steps": consec,
             "throws": len(th), "throws_at_index_gt0": sum(1 for x in th if x[1] > 0 and x[0] != 0),
             "throws_captured_by_node": sum(1 for x in th if pc["nodes"][(x[0], x[1])]["kind"] == 3),
-            "passive_outer_ports": sum(1 for (g, i), n in pc["nodes"].items() if n["kind"] in (1, 2) for s in n["ins"] if not s[2]),
+            "passive_outer_ports": sum(1 for (g, i), n in pc["nodes"].items() if n["kind"] in (1, 2, 4) for s in n["ins"] if not s[2]),
+            "pauses": sum(1 for l in r0 if l[0] == 17), "pausers": sum(1 for n in pc["nodes"].values() if n["kind"] == 5),
+            "pausers_at_index_gt0": sum(1 for (g, i), n in pc["nodes"].items() if n["kind"] == 5 and i > 0),
             "pokes": sum(1 for v in pc["scripts"].values() for op in v if op[0] == 9),
             "escaped": int(any(l[0] == 19 for l in r0)),
             "error": int(not isinstance(out, list))}
@@ -692,7 +737,40 @@ def oracle_reads(pc, run, fails):
                     fails.append(("stale_read", "node (%d,%d) input %d at %d reads %s, bound output %s implies %s" % (g, i, s, t, got, ep, exp)))
 
 
+def oracle_counts(pc, run, fails):
+    """C01 for child graphs: in one engine cycle every node of every graph is evaluated at most once, also when the
+    cycle pauses and resumes.  Only a node that paused the cycle itself (line 17) is entered again on each resume, and
+    so is every plain nested owner between it and the owner that re-enters the paused cycle."""
+    n11, n12, n17 = {}, {}, {}
+    for l in run:
+        if l[0] == 11:
+            n11[(l[1], l[2], l[3])] = n11.get((l[1], l[2], l[3]), 0) + 1
+        elif l[0] == 12:
+            n12[(l[1], l[2], l[3])] = n12.get((l[1], l[2], l[3]), 0) + 1
+        elif l[0] == 17:
+            n17[(l[1], l[2], l[3])] = n17.get((l[1], l[2], l[3]), 0) + 1
+    allowed = {}
+    for (g, i, t), c in n17.items():
+        allowed[(g, i, t)] = allowed.get((g, i, t), 0) + c
+        par = pc["parent"].get(g)
+        while par is not None and pc["nodes"][par]["kind"] != 4:
+            allowed[(par[0], par[1], t)] = allowed.get((par[0], par[1], t), 0) + c
+            par = pc["parent"].get(par[0])
+    for key, c in sorted(n11.items()):
+        if c > 1 + allowed.get(key, 0):
+            fails.append(("evaluated_twice", "node (%d,%d) evaluated %d times in the engine cycle %d (allowed %d: %d pause(s) of it or below it)"
+                          % (key[0], key[1], c, key[2], 1 + allowed.get(key, 0), allowed.get(key, 0))))
+    for key, c in sorted(n12.items()):
+        if c > 1:
+            fails.append(("evaluated_twice", "user code of node (%d,%d) ran %d times in the engine cycle %d" % (key[0], key[1], c, key[2])))
+    # every requested pause happened, and the run completed afterwards in the same cycle
+    for (g, i, t), c in sorted(n17.items()):
+        if n12.get((g, i, t), 0) != 1 and not any(l[0] == 19 for l in run):
+            fails.append(("pause_not_resumed", "node (%d,%d) paused the cycle %d %d time(s) but its run did not complete in that cycle" % (g, i, t, c)))
+
+
 def oracle_c09(pc, run, fails):
+    oracle_counts(pc, run, fails)
     oracle_clocks(pc, run, fails)
     oracle_timers(pc, run, fails, aborted_ok=False)
     oracle_reads(pc, run, fails)
@@ -740,6 +818,7 @@ def oracle_c15(pc, runs, fails):
     if escaped:
         return
     oracle_clocks(pc, run, fails)
+    oracle_counts(pc, run, fails)
     # ---- exactly one error tick per throw, in the same cycle, carrying the message
     expected = {}
     for (g, i, t, code) in th:
@@ -903,10 +982,13 @@ def oracle(prop, case, out):
 
 
 PROP_KINDS = {
+    "C01": {"evaluated_twice", "pause_not_resumed", "child_early", "child_clock_ahead", "child_outside_owner", "node_outside_cycle",
+            "cycle_order_strict", "run_stopped", "build_error", "stale_read", "wake_lost"},
     # C02 names "work inside a nested child" among the wake-ups a simulation run must honour
     "C02": {"wake_lost", "wake_lost_after_captured_error", "child_early", "child_clock_ahead", "build_error"},
     "C09": {"nested_differs", "child_early", "child_clock_ahead", "child_outside_owner", "cycle_order", "node_outside_cycle",
-            "wake_lost", "stale_read", "run_stopped", "trace_shape", "build_error", "phantom_tick_forwarding_rebind", "phantom_tick"},
+            "wake_lost", "stale_read", "run_stopped", "trace_shape", "build_error", "phantom_tick_forwarding_rebind", "phantom_tick",
+            "evaluated_twice", "pause_not_resumed"},
     "C15": {"run_stopped", "uncaptured_swallowed", "error_tick_missing", "error_tick_twice", "error_message", "error_tick_spurious",
             "error_tick_secondary", "lost_tick_after_captured_error", "not_evaluated", "interference", "clean_run_failed",
             "child_early", "wake_lost", "build_error", "wake_lost_after_captured_error", "tick_swallowed_after_captured_error"},
